@@ -14,7 +14,7 @@ EXPLANATION = (
     "and bound (word 3) and emitted in header order; S6 instruction framing; S7 no lossy narrowing cast between decoding and "
     "storing a word (MIR cast census). The documented exceptions (OpLine/OpNoLine between blocks, several OpMemoryModel) are the "
     "overwriting/fallback sinks visible in the extracted automaton.")
-EXHAUSTIVE = True
+EXHAUSTIVE = False     # the abstract inputs are a stated finite scope, not the whole input space
 
 
 def run(ctx, chk):
